@@ -177,7 +177,7 @@ Inductive pc :=
 | PRead (t : Z) (b : chunk) (g : opg)               (* about to take the read lock *)
 | PAppend (t : Z) (b : chunk) (f : string) (g : opg). (* holds a read guard on file f *)
 
-Record land := { l_file : string; l_t : Z; l_buf : chunk; l_tid : nat; l_clean : bool; l_nd : bool }.
+Record land := { l_file : string; l_t : Z; l_buf : chunk; l_tid : nat; l_clean : bool; l_nd : bool; l_life : nat }.
 
 Record state := {
   next : Z;                      (* Inner.next_date *)
@@ -195,18 +195,49 @@ Record state := {
   pend : list nat;               (* threads between a won CAS and their refresh step *)
   refreshed : bool;              (* some refresh_writer has run *)
   overlapped : bool;             (* some CAS was won while another winner had not refreshed yet *)
-  maxstart : Z                   (* largest clock reading presented so far *)
+  maxstart : Z;                  (* largest clock reading presented so far (in this lifetime) *)
+  life : nat;                    (* which appender lifetime this is (ghost; 0 = no appender built yet) *)
+  panics : nat                   (* calls that panicked inside next_date (clock + period beyond the time crate's range) *)
 }.
 
 Definition upd (f : nat -> option pc) (i : nat) (v : option pc) : nat -> option pc :=
   fun j => if Nat.eqb j i then v else f j.
 
-(** Inner::new + create_writer: no pruning at construction *)
-Definition init (c : config) (pre : list file) (tick0 : N) (t0 : Z) : state :=
-  let '(d, tk) := create (join_date c t0) pre tick0 in
-  {| next := next_usize (rot c) t0; cur := join_date c t0; dir := d; tick := tk; readers := [];
-     pcs := fun _ => None; grave := []; rots := []; fails := []; decided := []; lands := [];
-     pend := []; refreshed := false; overlapped := false; maxstart := t0 |}.
+(** * The range of the [time] crate (no `large-dates` feature): years -9999 ..= 9999 *)
+Definition DT_MIN : Z := -377705116800.   (* -9999-01-01T00:00:00Z *)
+Definition DT_MAX : Z := 253402300799.    (*  9999-12-31T23:59:59Z *)
+(** [Rotation::next_date]: [*current_date + Duration::..] is [checked_add(..).expect("resulting value is out of
+    range")] - it PANICS when the sum is past the last representable instant; [round_date] cannot fail
+    (from_hms of an existing hour/minute) and only moves down, never below the day's start. *)
+Definition next_ok (k : rotation) (t : Z) : bool :=
+  match k with Never => true | _ => t + dur k <=? DT_MAX end.
+
+Definition bump_panics (s : state) : state :=
+  {| next := next s; cur := cur s; dir := dir s; tick := tick s; readers := readers s; pcs := pcs s;
+     grave := grave s; rots := rots s; fails := fails s; decided := decided s; lands := lands s;
+     pend := pend s; refreshed := refreshed s; overlapped := overlapped s; maxstart := maxstart s;
+     life := life s; panics := S (panics s) |}.
+
+(** a directory nobody has built an appender over yet *)
+Definition blank (pre : list file) (tick0 : N) : state :=
+  {| next := 0; cur := EmptyString; dir := pre; tick := tick0; readers := []; pcs := fun _ => None;
+     grave := []; rots := []; fails := []; decided := []; lands := []; pend := []; refreshed := false;
+     overlapped := false; maxstart := 0; life := O; panics := O |}.
+
+(** Builder::build -> Inner::new + create_writer over whatever the directory holds: next_date first (may
+    panic: then no appender and nothing touched), then OpenOptions::append(true).create(true) on the file of
+    the construction time's period - an existing file of that period is opened for append, not truncated;
+    no pruning at construction.  The previous appender (if any) has been dropped: no call is in flight.
+    The ghosts [grave], [lands] carry over; [rots] .. [overlapped] are per lifetime. *)
+Definition restart (c : config) (s : state) (t0 : Z) : state :=
+  if next_ok (rot c) t0 then
+    let '(d, tk) := create (join_date c t0) (dir s) (tick s) in
+    {| next := next_usize (rot c) t0; cur := join_date c t0; dir := d; tick := tk; readers := [];
+       pcs := fun _ => None; grave := grave s; rots := []; fails := []; decided := []; lands := lands s;
+       pend := []; refreshed := false; overlapped := false; maxstart := t0; life := S (life s); panics := panics s |}
+  else bump_panics s.
+
+Definition init (c : config) (pre : list file) (tick0 : N) (t0 : Z) : state := restart c (blank pre tick0) t0.
 
 (** should_rollover(now) *)
 Definition should_rollover (s : state) (t : Z) : option Z :=
@@ -219,23 +250,23 @@ Definition refresh (c : config) (s : state) (t : Z) : state :=
   let '(d2, tk) := create nm d1 (tick s) in
   {| next := next s; cur := nm; dir := d2; tick := tk; readers := readers s; pcs := pcs s;
      grave := grave s ++ removed; rots := rots s; fails := fails s; decided := decided s; lands := lands s;
-     pend := pend s; refreshed := true; overlapped := overlapped s; maxstart := maxstart s |}.
+     pend := pend s; refreshed := true; overlapped := overlapped s; maxstart := maxstart s; life := life s; panics := panics s |}.
 
 Definition set_next (s : state) (n : Z) : state :=
   {| next := n; cur := cur s; dir := dir s; tick := tick s; readers := readers s; pcs := pcs s;
      grave := grave s; rots := rots s; fails := fails s; decided := decided s; lands := lands s;
-     pend := pend s; refreshed := refreshed s; overlapped := overlapped s; maxstart := maxstart s |}.
+     pend := pend s; refreshed := refreshed s; overlapped := overlapped s; maxstart := maxstart s; life := life s; panics := panics s |}.
 
 Definition do_append (s : state) (f : string) (t : Z) (b : chunk) (i : nat) (cl n : bool) : state :=
   {| next := next s; cur := cur s; dir := append_to f (t, b) (dir s); tick := tick s; readers := readers s;
      pcs := pcs s; grave := grave s; rots := rots s; fails := fails s; decided := decided s;
-     lands := {| l_file := f; l_t := t; l_buf := b; l_tid := i; l_clean := cl; l_nd := n |} :: lands s;
-     pend := pend s; refreshed := refreshed s; overlapped := overlapped s; maxstart := maxstart s |}.
+     lands := {| l_file := f; l_t := t; l_buf := b; l_tid := i; l_clean := cl; l_nd := n; l_life := life s |} :: lands s;
+     pend := pend s; refreshed := refreshed s; overlapped := overlapped s; maxstart := maxstart s; life := life s; panics := panics s |}.
 
 Definition with_maxstart (s : state) (m : Z) : state :=
   {| next := next s; cur := cur s; dir := dir s; tick := tick s; readers := readers s; pcs := pcs s;
      grave := grave s; rots := rots s; fails := fails s; decided := decided s; lands := lands s;
-     pend := pend s; refreshed := refreshed s; overlapped := overlapped s; maxstart := m |}.
+     pend := pend s; refreshed := refreshed s; overlapped := overlapped s; maxstart := m; life := life s; panics := panics s |}.
 
 (** * Exclusive interface: io::Write::write(&mut self, buf) *)
 Definition write_x (c : config) (s : state) (t : Z) (b : chunk) : state :=
@@ -244,7 +275,13 @@ Definition write_x (c : config) (s : state) (t : Z) (b : chunk) : state :=
     | Some _ => refresh c (set_next s (next_usize (rot c) t)) t     (* the CAS cannot fail under &mut *)
     | None => s
     end in
-  with_maxstart (do_append s1 (cur s1) t b 0%nat true (maxstart s <=? t)) (Z.max (maxstart s) t).
+  match should_rollover s t with
+  | Some _ =>
+      if next_ok (rot c) t
+      then with_maxstart (do_append s1 (cur s1) t b 0%nat true (maxstart s <=? t)) (Z.max (maxstart s) t)
+      else bump_panics s           (* advance_date -> next_date panics before the store: nothing written, nothing changed *)
+  | None => with_maxstart (do_append s1 (cur s1) t b 0%nat true (maxstart s <=? t)) (Z.max (maxstart s) t)
+  end.
 Definition run_x (c : config) (s : state) (ws : list (Z * chunk)) : state :=
   fold_left (fun s w => write_x c s (fst w) (snd w)) ws s.
 
@@ -254,15 +291,15 @@ Inductive event := Start (i : nat) (t : Z) (b : chunk) | Step (i : nat).
 Definition with_pcs (s : state) (p : nat -> option pc) : state :=
   {| next := next s; cur := cur s; dir := dir s; tick := tick s; readers := readers s; pcs := p;
      grave := grave s; rots := rots s; fails := fails s; decided := decided s; lands := lands s;
-     pend := pend s; refreshed := refreshed s; overlapped := overlapped s; maxstart := maxstart s |}.
+     pend := pend s; refreshed := refreshed s; overlapped := overlapped s; maxstart := maxstart s; life := life s; panics := panics s |}.
 Definition with_readers (s : state) (r : list nat) : state :=
   {| next := next s; cur := cur s; dir := dir s; tick := tick s; readers := r; pcs := pcs s;
      grave := grave s; rots := rots s; fails := fails s; decided := decided s; lands := lands s;
-     pend := pend s; refreshed := refreshed s; overlapped := overlapped s; maxstart := maxstart s |}.
+     pend := pend s; refreshed := refreshed s; overlapped := overlapped s; maxstart := maxstart s; life := life s; panics := panics s |}.
 Definition with_ghost (s : state) (ro fa : list (nat * Z * Z)) (de : list Z) (pe : list nat) (ov : bool) : state :=
   {| next := next s; cur := cur s; dir := dir s; tick := tick s; readers := readers s; pcs := pcs s;
      grave := grave s; rots := ro; fails := fa; decided := de; lands := lands s;
-     pend := pe; refreshed := refreshed s; overlapped := ov; maxstart := maxstart s |}.
+     pend := pe; refreshed := refreshed s; overlapped := ov; maxstart := maxstart s; life := life s; panics := panics s |}.
 
 Definition remove_tid (i : nat) (l : list nat) : list nat := filter (fun j => negb (Nat.eqb j i)) l.
 Definition is_nil {A} (l : list A) : bool := match l with [] => true | _ => false end.
@@ -290,6 +327,10 @@ Definition step (c : config) (s : state) (e : event) : state :=
                              (upd (pcs s) i (Some (PRead t b g)))
           end
       | Some (PCas t b n g) =>
+          if negb (next_ok (rot c) t) then
+            (* advance_date computes next_date(now) before the compare_exchange: panic, the call ends, no lock is held *)
+            with_pcs (bump_panics s) (upd (pcs s) i None)
+          else
           if next s =? n then
             let g' := {| q0 := q0 g; c0 := c0 g; mine := 1; nd := nd g |} in
             with_pcs (with_ghost (set_next s (next_usize (rot c) t))
@@ -350,13 +391,29 @@ Definition hstep (c : config) (s : state) (o : hop) : state :=
 (** * Observation (what the harness prints): sorted by the driver *)
 Definition content (f : file) : chunk := base f ++ List.concat (map snd (landed f)).
 Definition observe (s : state) : list (string * chunk * N) := map (fun f => (fname f, content f, created f)) (dir s).
-Definition obs_trace_x (c : config) (s : state) (ws : list (Z * chunk)) : list (list (string * chunk * N)) :=
-  snd (fold_left (fun (a : state * list (list (string * chunk * N))) w =>
-                    let s' := write_x c (fst a) (fst w) (snd w) in (s', snd a ++ [observe s'])) ws (s, [])).
-Definition obs_trace_h (c : config) (s : state) (os : list hop)
-  : list (list (string * chunk * N) * nat * bool) :=
-  snd (fold_left (fun (a : state * list (list (string * chunk * N) * nat * bool)) o =>
-                    let s' := hstep c (fst a) o in
-                    let parked := match o with HPark i _ _ => at_yield s' i | HPark0 i _ _ => at_cas s' i | _ => false end in
-                    (s', snd a ++ [(observe s', (List.length (rots s') - List.length (rots (fst a)))%nat, parked)]))
-                 os (s, [])).
+(** one observation: directory listing, compare_exchange wins during the op, parked at a yield point, panics during the op *)
+Definition obs1 : Type := (list (string * chunk * N) * nat * bool * nat)%type.
+
+Definition trace_x (c : config) (s : state) (ws : list (Z * chunk)) : state * list obs1 :=
+  fold_left (fun (a : state * list obs1) w =>
+               let s' := write_x c (fst a) (fst w) (snd w) in
+               (s', snd a ++ [(observe s', O, false, (panics s' - panics (fst a))%nat)])) ws (s, []).
+Definition trace_h (c : config) (s : state) (os : list hop) : state * list obs1 :=
+  fold_left (fun (a : state * list obs1) o =>
+               let s' := hstep c (fst a) o in
+               let parked := match o with HPark i _ _ => at_yield s' i | HPark0 i _ _ => at_cas s' i | _ => false end in
+               (s', snd a ++ [(observe s', (List.length (rots s') - List.length (rots (fst a)))%nat, parked,
+                               (panics s' - panics (fst a))%nat)])) os (s, []).
+Definition obs_trace_x (c : config) (s : state) (ws : list (Z * chunk)) : list obs1 := snd (trace_x c s ws).
+Definition obs_trace_h (c : config) (s : state) (os : list hop) : list obs1 := snd (trace_h c s os).
+
+(** several appender lifetimes over one directory: each is (configuration, construction clock, operations through
+    one of the interfaces); the appender of a lifetime is dropped (all calls finished) before the next is built *)
+Inductive life_ops := LX (ws : list (Z * chunk)) | LS (os : list hop).
+Definition trace_lives (s : state) (ls : list (config * Z * life_ops)) : list (obs1 * list obs1) :=
+  snd (fold_left (fun (a : state * list (obs1 * list obs1)) l =>
+                    let '(c, t0, ops) := l in
+                    let s1 := restart c (fst a) t0 in
+                    let built := (observe s1, O, false, (panics s1 - panics (fst a))%nat) in
+                    let '(s2, tr) := match ops with LX ws => trace_x c s1 ws | LS os => trace_h c s1 os end in
+                    (s2, snd a ++ [(built, tr)])) ls (s, [])).
